@@ -139,14 +139,15 @@ class RINGReaderError(RINGError):
     """
     Exception raised when input does not conform to RING syntax.
     """
-    def __init__(self, message):
-        self.message = message
+    def __init__(self, *message):
+        # Several call sites pass the message in pieces.
+        self.message = ' '.join(str(m) for m in message)
 
     def __str__(self):
         return self.message
 
     def __repr__(self):
-        return '%s(%r, %r)' % (type(self).__name__, self.message)
+        return '%s(%r)' % (type(self).__name__, self.message)
 
 
 class MolQueryError(Exception):
